@@ -25,7 +25,8 @@ PKG_DIRS = {
     "rebalancing": "internal/rebalancing",
     "utils": "internal/utils",
 }
-VIRTUAL = ["vkit", "h5ref", "vsched"]
+VIRTUAL = ["vkit", "h5ref", "vsched", "vos"]
+VOS_FILES = ["file.go", "internal/writer/writer.go"]
 
 
 def main():
@@ -47,10 +48,34 @@ def main():
         hdir = os.path.join(VERIF, "harness", v)
         for f in sorted(glob.glob(os.path.join(hdir, "*.go"))):
             replace[os.path.join(REPO, "internal", "verif", v, os.path.basename(f))] = f
-    extra = os.environ.get("VERIF_EXTRA_OVERLAY")
-    if extra:
-        with open(extra) as fh:
-            replace.update(json.load(fh)["Replace"])
+    if os.environ.get("VERIF_VOS") == "1":
+        # redirect the import path "os" -> vos in the two files that touch the file system;
+        # applied to whatever is in the working tree now (or in an extra overlay given below)
+        extra_map = {}
+        if os.environ.get("VERIF_EXTRA_OVERLAY"):
+            with open(os.environ["VERIF_EXTRA_OVERLAY"]) as fh:
+                extra_map = json.load(fh)["Replace"]
+        gen = os.environ.get("VERIF_VOS_DIR") or os.path.join(os.path.dirname(os.path.abspath(out)), "vosgen.%d" % os.getpid())
+        os.makedirs(gen, exist_ok=True)
+        for rel in VOS_FILES:
+            src = os.path.join(REPO, rel)
+            real = extra_map.get(src, src)
+            text = open(real).read()
+            if '\t"os"\n' not in text:
+                sys.stderr.write("overlay: %s does not import os as expected; vos redirection skipped for it\n" % rel)
+                continue
+            text = text.replace('\t"os"\n', '\tos "github.com/scigolib/hdf5/internal/verif/vos"\n', 1)
+            dst = os.path.join(gen, rel.replace("/", "__"))
+            with open(dst, "w") as fh:
+                fh.write(text)
+            replace[src] = dst
+            extra_map.pop(src, None)
+        replace.update(extra_map)
+    else:
+        extra = os.environ.get("VERIF_EXTRA_OVERLAY")
+        if extra:
+            with open(extra) as fh:
+                replace.update(json.load(fh)["Replace"])
     with open(out, "w") as fh:
         json.dump({"Replace": replace}, fh, indent=1)
 
